@@ -225,6 +225,7 @@ def _verdict(res, u, sub, verdict, model, idx, xs, ph, maps, level, sym_input=Fa
         res.unconfirmed.append({"key": key, "what": "model does not reproduce on compiled code (diff %.3g)" % mag})
 
 
+@symnp.outside_session
 def replay_concrete(sub, x, ph, maps, level):
     """Re-evaluate the violated sub-assertion with ordinary float arrays on the compiled kernels."""
     import phonopy._phonopy as phonoc
